@@ -551,7 +551,11 @@ class SLut(SV):
         raise Unsupported("dict method %s on unit table" % name)
 
     def sv_truth(self, it):
-        raise Unsupported("truth value of a symbolic unit table")
+        # a dict is falsy exactly when it is empty; emptiness is instantiated at the key the
+        # contracts' full-view postconditions speak about
+        b = it.fresh_bool("table_nonempty")
+        it.assume(z3.Implies(z3.Not(b), z3.Not(RowSort.present(z3.Select(self.term, z3.String("arbitrary_key"))))))
+        return b
 
 
 class OptRow(SV):
@@ -1308,6 +1312,8 @@ def _list(it, x=()):
 
 def _dict(it, x=None, **kw):
     d = {}
+    if isinstance(x, SLut) and not kw:
+        return SLut(x.term, x.label + "_dictcopy")        # dict(table): a new table object, same rows
     if x is not None:
         if isinstance(x, dict):
             d.update(x)
@@ -1517,6 +1523,11 @@ def dict_method(it, d, name):
     if name == "update":
         def update(it_, other=None, **kw):
             if other is not None:
+                if isinstance(other, SCache):
+                    # every memoised entry of `other` is copied: the dict now holds whatever that memo
+                    # held (kept as one opaque bulk entry; the dict is empty only if the memo was)
+                    d[("<entries copied from>", other.label)] = other
+                    return None
                 if not isinstance(other, dict):
                     raise Unsupported("dict.update with %r" % (other,))
                 d.update(other)
